@@ -46,6 +46,7 @@
 #include <nix/hydra/multiArray.hpp>
 #include <hdf5.h>
 #include <cstring>
+#include <algorithm>
 #include <climits>
 #include <cfloat>
 #include <cmath>
@@ -183,7 +184,7 @@ template <typename U> static bool representable(long double v) {
 static bool num_equal(long double a, long double b) { return (std::isnan(a) && std::isnan(b)) || a == b; }
 
 // ------------------------------------------------------------------------------------------------ letters
-enum Kind { W_FULL, W_EXTREMES, W_CELL_FIRST, W_CELL_LAST, W_SLAB, APPEND, GROW, SHRINK, SETWHOLE_PLUS, SETWHOLE_MINUS,
+enum Kind { W_FULL, W_EXTREMES, W_CELL_FIRST, W_CELL_LAST, W_SLAB, APPEND, GROW, SHRINK, SETWHOLE_PLUS, SETWHOLE_MINUS, SETWHOLE_PERM,
             POLY12, POLY001, ORIGIN1, UNSET_POLY, UNSET_ORIGIN, REOPEN };
 struct Letter { Kind kind; int axis; int ai; };
 
@@ -193,7 +194,7 @@ static std::string letter_str(const Letter &l) {
     switch (l.kind) {
     case W_FULL: return "W_full"; case W_EXTREMES: return "W_extremes"; case W_CELL_FIRST: return "W_cell(first)"; case W_CELL_LAST: return "W_cell(last)";
     case W_SLAB: return "W_slab(" + ax + ", last index)"; case APPEND: return "Append(" + ax + ")"; case GROW: return "Grow(" + ax + ")"; case SHRINK: return "Shrink(" + ax + ")";
-    case SETWHOLE_PLUS: return "SetWhole(shape+1)"; case SETWHOLE_MINUS: return "SetWhole(shape-1)";
+    case SETWHOLE_PLUS: return "SetWhole(shape+1)"; case SETWHOLE_MINUS: return "SetWhole(shape-1)"; case SETWHOLE_PERM: return "SetWhole(shape reversed)";
     case POLY12: return "Poly([1,2])"; case POLY001: return "Poly([0,0,1])"; case ORIGIN1: return "Origin(1)";
     case UNSET_POLY: return "UnsetPoly"; case UNSET_ORIGIN: return "UnsetOrigin"; case REOPEN: return "REOPEN";
     }
@@ -215,9 +216,10 @@ static std::vector<Letter> make_alphabet(int rank, bool numeric, int level) {
     for (int a = 0; a < rank; a++) { if (level == 0 && rank >= 3 && a != 0 && a != rank - 1) continue; add(SHRINK, a); }
     add(SETWHOLE_PLUS, 0);
     if (level >= 1) add(SETWHOLE_MINUS, 0);
+    if (rank >= 2) add(SETWHOLE_PERM, 0);      // same number of elements, another shape
     if (numeric) {
         add(POLY12, 0);
-        if (level >= 1) add(POLY001, 0);
+        if (level >= 1 || rank == 1) add(POLY001, 0);   // rank 1 also at level 0: a longer polynomial replaced by a shorter one
         add(ORIGIN1, 0);
         add(UNSET_POLY, 0);
         if (level >= 1) add(UNSET_ORIGIN, 0);
@@ -238,6 +240,7 @@ static bool enabled(const Letter &l, const Ext &e) {
     case SHRINK: return e[l.axis] >= 1;
     case SETWHOLE_PLUS: for (size_t x : e) if (x > 3) return false; return true;
     case SETWHOLE_MINUS: for (size_t x : e) if (x < 2) return false; return true;
+    case SETWHOLE_PERM: { Ext r(e.rbegin(), e.rend()); return r != e; }
     default: return true;
     }
 }
@@ -247,6 +250,7 @@ static void apply_extent(const Letter &l, Ext &e) {
     case SHRINK: e[l.axis]--; break;
     case SETWHOLE_PLUS: for (size_t &x : e) x++; break;
     case SETWHOLE_MINUS: for (size_t &x : e) x--; break;
+    case SETWHOLE_PERM: std::reverse(e.begin(), e.end()); break;
     default: break;
     }
 }
@@ -546,6 +550,7 @@ struct Runner {
             case APPEND: ops = "appendData"; cnt[l.axis] = 1; newext[l.axis]++; break;
             case SETWHOLE_PLUS: ops = "setData(container) with a larger shape"; for (size_t &x : cnt) x++; newext = cnt; break;
             case SETWHOLE_MINUS: ops = "setData(container) with a smaller shape"; for (size_t &x : cnt) x--; newext = cnt; break;
+            case SETWHOLE_PERM: ops = "setData(container) with the shape reversed (same number of elements)"; std::reverse(cnt.begin(), cnt.end()); newext = cnt; break;
             case GROW: ops = "dataExtent(grow)"; newext[l.axis]++; break;
             case SHRINK: ops = "dataExtent(shrink)"; newext[l.axis]--; break;
             case POLY12: case POLY001: ops = "polynomCoefficients(c)"; break;
@@ -554,7 +559,7 @@ struct Runner {
             case UNSET_ORIGIN: ops = "expansionOrigin(none)"; break;
             case REOPEN: ops = "REOPEN"; break;
             }
-            const bool is_write = l.kind <= W_SLAB || l.kind == APPEND || l.kind == SETWHOLE_PLUS || l.kind == SETWHOLE_MINUS;
+            const bool is_write = l.kind <= W_SLAB || l.kind == APPEND || l.kind == SETWHOLE_PLUS || l.kind == SETWHOLE_MINUS || l.kind == SETWHOLE_PERM;
             if (is_write) {
                 const size_t n = nelms(cnt);
                 const std::vector<S> &E = X::extremes();
@@ -565,7 +570,7 @@ struct Runner {
                 k += (long)n;
                 nwrites++;
                 if (l.kind == APPEND) how = "untyped";
-                else if (l.kind == SETWHOLE_PLUS || l.kind == SETWHOLE_MINUS) how = ck_name(container_kind(wish, cnt));
+                else if (l.kind == SETWHOLE_PLUS || l.kind == SETWHOLE_MINUS || l.kind == SETWHOLE_PERM) how = ck_name(container_kind(wish, cnt));
                 else if (!typed) how = "untyped";
                 else how = single ? "scalar" : ck_name(container_kind(wish, cnt));
                 if (l.kind <= W_SLAB) ops += "(" + how + ")";
@@ -617,7 +622,7 @@ struct Runner {
                     else W.setData(X::dt(), vals.data(), nd(cnt), nd(off));
                     break;
                 case APPEND: W.appendData(X::dt(), vals.data(), nd(cnt), (size_t)l.axis); break;
-                case SETWHOLE_PLUS: case SETWHOLE_MINUS: container_write(W, cnt, nullptr, vals, wish); break;
+                case SETWHOLE_PLUS: case SETWHOLE_MINUS: case SETWHOLE_PERM: container_write(W, cnt, nullptr, vals, wish); break;
                 case GROW: case SHRINK: W.dataExtent(nd(newext)); break;
                 case POLY12: W.polynomCoefficients(std::vector<double>{1.0, 2.0}); break;
                 case POLY001: W.polynomCoefficients(std::vector<double>{0.0, 0.0, 1.0}); break;
@@ -644,7 +649,7 @@ struct Runner {
             switch (l.kind) {
             case W_FULL: case W_EXTREMES: case W_SLAB: case W_CELL_FIRST: case W_CELL_LAST: m.write(off, cnt, vals); break;
             case APPEND: { Ext o(rank, 0); o[l.axis] = m.ext[l.axis]; m.resize(newext); m.write(o, cnt, vals); break; }
-            case SETWHOLE_PLUS: case SETWHOLE_MINUS: m.resize(newext); m.write(Ext(rank, 0), cnt, vals); break;
+            case SETWHOLE_PLUS: case SETWHOLE_MINUS: case SETWHOLE_PERM: m.resize(newext); m.write(Ext(rank, 0), cnt, vals); break;
             case GROW: case SHRINK: m.resize(newext); break;
             case POLY12: m.poly = {1.0, 2.0}; break;
             case POLY001: m.poly = {0.0, 0.0, 1.0}; break;
